@@ -65,6 +65,13 @@ MESSAGES = [
     ("html", ["</script><b>"]),
     ("escape-n", ["line1\\nline2"]),
     ("keywords", ["email url min max length range message"]),
+    # non-ASCII text from every part of the code space (one- to four-byte UTF-8, below and above U+1000, beyond the BMP, combining
+    # marks, right-to-left, the separators U+2028/U+2029 and a BOM in mid-text)
+    ("latin-1", ["Größe: bitte höchstens 20 Zeichen", "L’adresse n’est pas valide !"]),
+    ("greek-cyrillic", ["Η τιμή δεν είναι έγκυρη", "Неверное значение, повторите"]),
+    ("rtl", ["ערך לא חוקי", "قيمة غير صالحة"]),
+    ("indic-cjk", ["मान्य नहीं है", "値が不正です", "값이 올바르지 않습니다"]),
+    ("astral-and-marks", ["too short 😀👍🏽", "é å zero‍width", "line sep para", "bom﻿inside"]),
 ]
 
 
